@@ -102,6 +102,8 @@ def run(pid, tier_, replay=None):
         scenarios.extend(bp.race_scenarios(rng, 450 if quick else 3000, seed))
     if pid == "C11":
         scenarios.extend(bp.storm_scenarios(rng, 180 if quick else 3000, seed))
+    if pid == "C09":
+        scenarios.extend(bp.trickle_scenarios(rng, 120 if quick else 2000, seed))
     binp_f = pool.submit(bp.build_harness, pid == "C11")
     nbeh = 0
     for k, f in enumerate(sim_futs):
